@@ -119,7 +119,7 @@ var defaults struct {
 func Setup() {
 	defaults.once.Do(func() {
 		if p := os.Getenv("ELKPATH"); p == "" {
-			env.ELKPATH = "/repo"
+			env.ELKPATH = core.RepoRoot
 		}
 		defaults.initStack = vm.INIT_VALUE_STACK_SIZE
 		defaults.maxStack = vm.MAX_VALUE_STACK_SIZE
